@@ -18,7 +18,7 @@ package staticroute
 //@ pure func route_ok(r *dhcpv4.Route) bool = r != nil && r.Dest != nil && len(r.Dest.IP) == 4 && len(r.Dest.Mask) == 4 && isv4(r.Router)
 // Assumed by the handler; setup4 proves it element-wise (the assert below: every route appended to
 // `routes` is IPv4) - the step from "every appended element" to "every element" is not machine-checked.
-//@ plugin-invariant[Handler4] forall i in 0..len(routes): route_ok(routes[i])
+//@ plugin-invariant[Handler4,assumed] forall i in 0..len(routes): route_ok(routes[i])
 
 //@ func setup4
 //@   modifies everything
